@@ -255,7 +255,7 @@ def wrapper_text(grammar, sel, defs, maxch, maxd, action=None, control=None):
     types = [k for v in groups.values() for k in v]
     act = 'vf::act_bool' if action == 'bool' else 'vf::act0_void' if action == 'void0' else 'tao::pegtl::nothing'
     return WRAP % {'maxch': maxch, 'maxd': maxd, 'preamble': '\n'.join(pre), 'grammar': repr(e), 'rids': '', 'selector': selector,
-                   'types': ', '.join(types), 'selname': 'sel', 'action': act, 'control': '#define C12_CONTROL vf::vmi_control' if control == 'mustif' else ''}
+                   'types': ', '.join(types), 'selname': 'sel', 'action': act, 'control': ('#define C12_CONTROL vf::vmi_control' if control == 'mustif' else '') + ('\n#define C12_USER_STATE 1' if control == 'userstate' else '')}
 
 
 def wrapper_text_all(grammar, gen, maxch, maxd):
